@@ -6,8 +6,8 @@ from lib import codec
 from spec.rfc8152 import STRUCTURES, CONTEXTS, ROUTING, HELPERS, RECIPIENT_CONTEXTS
 
 CLONE_PH = "<header::ProtectedHeader as core::clone::Clone>::clone"
-CALL_ONCE = "core::ops::FnOnce::call_once"
-DEREF = "core::ops::Deref::deref"
+CALL_ONCE = "core::ops::function::FnOnce::call_once"
+DEREF = "core::ops::deref::Deref::deref"
 TO_VEC_SLICE = "alloc::slice::<impl [T]>::to_vec"
 EXPECT_R = "core::result::Result::<T, E>::expect"
 UNWRAP_R = "core::result::Result::<T, E>::unwrap"
@@ -70,7 +70,7 @@ def check_assembly(ctx, rule, sfn):
         P = ("param", pi)
         guard_ok = e["conds"] == [] or all(_is_try_edge(c) for c in e["conds"])
         if role == "context":
-            ok = (t[0] == "aggr" and t[1] == "ciborium::Value" and t[2] == "Text" and is_call(t[3][0][1], "alloc::borrow::ToOwned::to_owned")
+            ok = (t[0] == "aggr" and t[1] == "ciborium::value::Value" and t[2] == "Text" and is_call(t[3][0][1], "alloc::borrow::ToOwned::to_owned")
                   and is_call(t[3][0][1][2][0], spec["text"]) and strip_ref(t[3][0][1][2][0][2][0]) == P) and guard_ok
         elif role == "protected":
             ok = _is_expect_cbor_bstr(t, P) and guard_ok
@@ -79,7 +79,7 @@ def check_assembly(ctx, rule, sfn):
             pvs = path_variants(prog, pv, [c for c in e["conds"] if not _is_try_edge(c)])
             ok = ok and pvs == {P: {"Some"}} and e["via"] == "push"
         elif role == "bstr":
-            ok = (t[0] == "aggr" and t[1] == "ciborium::Value" and t[2] == "Bytes" and is_call(t[3][0][1], TO_VEC_SLICE)
+            ok = (t[0] == "aggr" and t[1] == "ciborium::value::Value" and t[2] == "Bytes" and is_call(t[3][0][1], TO_VEC_SLICE)
                   and strip_ref(t[3][0][1][2][0]) == P) and guard_ok
         else:
             ok = False
@@ -98,7 +98,7 @@ def check_assembly(ctx, rule, sfn):
 
 
 def _is_try_edge(c):
-    return c[0][0] == "discr" and is_call(c[0][1], "core::ops::Try::branch")
+    return c[0][0] == "discr" and is_call(c[0][1], "core::ops::try_trait::Try::branch")
 
 
 def _is_expect_cbor_bstr(t, arg):
@@ -266,7 +266,7 @@ def check_helper(ctx, rule, key, h, rules=None):
         for want, got in zip(h["fwd"], a[1:]):
             g = strip_ref(got)
             if want == "sig":
-                ok = is_call(g, "core::ops::Index::index") and strip_ref(g[2][0]) == ("field", ("deref", ("param", 0)), "signatures") and g[2][1] == ("param", 1)
+                ok = is_call(g, "core::ops::index::Index::index") and strip_ref(g[2][0]) == ("field", ("deref", ("param", 0)), "signatures") and g[2][1] == ("param", 1)
             elif want == "sig1":
                 ok = g == ("param", 1)
             else:
@@ -277,7 +277,7 @@ def check_helper(ctx, rule, key, h, rules=None):
         stored = strip_deref_call(args[0]) if len(args) == 2 else None
         if h["stored"].startswith("signatures["):
             ok = (stored is not None and stored[0] == "field" and stored[2] == "signature"
-                  and is_call(strip_deref(stored[1]), "core::ops::Index::index")
+                  and is_call(strip_deref(stored[1]), "core::ops::index::Index::index")
                   and strip_ref(strip_deref(stored[1])[2][0]) == ("field", ("deref", ("param", 0)), "signatures")
                   and strip_deref(stored[1])[2][1] == ("param", 1))
         else:
